@@ -205,6 +205,11 @@ func main() {
 		crashMain()
 		return
 	}
+	if len(os.Args) > 1 && os.Args[1] == "ro" {
+		os.Args = append(os.Args[:1], os.Args[2:]...)
+		roMain()
+		return
+	}
 	if len(os.Args) > 1 && os.Args[1] == "fault" {
 		os.Args = append(os.Args[:1], os.Args[2:]...)
 		faultMain()
